@@ -1,11 +1,11 @@
 (** Model of the thread-related logic of labrea (C15): executable definitions only.
 
-    Sources (as of /repo HEAD, i.e. after fix 93f0f4c "per-thread stack of saved runtimes"
-    and fd53836 "run falls back to the defaults table"):
-      labrea/runtime.py   lock (l.29), Runtime.__init__ (112-116), Runtime.run (175-184),
-                          Runtime.__enter__ (186-191), Runtime.__exit__ (193-200),
-                          _RUNTIMES/_PREVIOUS (203-204), current_runtime (207-210),
-                          inherit (256-265)
+    Sources (as of /repo HEAD 8a7cb3b, i.e. after fix 93f0f4c "per-thread stack of saved
+    runtimes", fd53836 "run falls back to the defaults table" and 8a7cb3b "explicit lookup"):
+      labrea/runtime.py   lock (l.29), Runtime.__init__ (112-116), Runtime.run (158-185),
+                          Runtime.__enter__ (187-192), Runtime.__exit__ (194-201),
+                          _RUNTIMES/_PREVIOUS (204-205), current_runtime (208-211),
+                          inherit (257-266)
       labrea/overload.py  _get_lock (22-24), Overloaded.register (90-101)
       labrea/cache.py     MemoryCache (151-169), the three default cache handlers (255-280),
                           Cached.evaluate (328-338)
@@ -88,7 +88,8 @@ Fixpoint aset {A} (k : N) (v : A) (l : list (N * A)) : list (N * A) :=
   | (k', v') :: l' => if N.eqb k k' then (k, v) :: l' else (k', v') :: aset k v l'
   end.
 
-(** Runtime.run (runtime.py 175-184): [self.handlers.get(type) or _DEFAULT_HANDLERS[type]];
+(** Runtime.run (runtime.py 175-185): [self.handlers[type]], on KeyError [_DEFAULT_HANDLERS[type]],
+    on KeyError again TypeError "No handler" (= None here);
     Runtime(h).handlers = {**_DEFAULT_HANDLERS, **h}; a fresh Runtime() has no entry in the heap. *)
 Definition handlers_of (hp : list (rt * htable)) (r : rt) : htable :=
   match assoc r hp with Some h => h | None => [] end.
@@ -148,7 +149,7 @@ Section Step.
   Variable valf : opts -> value.
   Variable fl : flags.
 
-  (** Runtime.__enter__ (186-191):
+  (** Runtime.__enter__ (187-192):
         thread = current_thread(); _PREVIOUS.setdefault(thread, []).append(_RUNTIMES.get(thread));
         _RUNTIMES[thread] = self *)
   Definition step_enter (t : thread) (r : rt) (s : gstate) : gstate :=
@@ -161,7 +162,7 @@ Section Step.
       | _ => set_tl (set_slot s t (Some r)) t (adv ts)                  (* _RUNTIMES[thread] = self *)
       end.
 
-  (** Runtime.__exit__ (193-200): previous = _PREVIOUS[thread].pop();
+  (** Runtime.__exit__ (194-201): previous = _PREVIOUS[thread].pop();
         if previous is None: _RUNTIMES.pop(thread, None) else: _RUNTIMES[thread] = previous.
       An Exit with an empty stack (IndexError/KeyError in Python) is outside the generated
       universe (programs are well nested); the model skips the operation. *)
@@ -181,7 +182,7 @@ Section Step.
       end.
 
   (** Request.run (l.51): current_runtime().run(self);
-      current_runtime (207-210): with lock: return _RUNTIMES.setdefault(thread, Runtime()).
+      current_runtime (208-211): with lock: return _RUNTIMES.setdefault(thread, Runtime()).
       The handler lookup reads only immutable data (Runtime.handlers) and the defaults. *)
   Definition step_run (t : thread) (q : ty) (s : gstate) : gstate :=
     let ts := tl s t in
@@ -195,7 +196,7 @@ Section Step.
                     (adv (log_tag ts (serve (heap s) (defaults s) r q)))
       end.
 
-  (** inherit (256-265): with lock: _RUNTIMES[current] = _RUNTIMES.get(parent, Runtime()) *)
+  (** inherit (257-266): with lock: _RUNTIMES[current] = _RUNTIMES.get(parent, Runtime()) *)
   Definition step_inherit (t : thread) (p : thread) (s : gstate) : gstate :=
     let ts := tl s t in
     if inherit_atomic fl then
